@@ -21,8 +21,8 @@ type part struct {
 }
 
 type pkgModel struct {
-	Format   string // xlsx | pptx | epub
-	Parts    []part // declared order
+	Format   string            // xlsx | pptx | epub
+	Parts    []part            // declared order
 	Foreign  map[string]string // token -> where it comes from; must be shown nowhere
 	Features []string
 	ZipNames []string
